@@ -64,6 +64,10 @@ type c05Result struct {
 
 var c05Seq int
 
+// c05CallBudget is the number of intercepted file-system calls one scenario run may make (0: unlimited); the
+// fault test sets it to a multiple of what the fault-free run of the scenario needed.
+var c05CallBudget int
+
 // c05Run executes the scenario in a fresh directory under the given fault plan.
 func c05Run(t *rapid.T, base string, weekends string, ops []c05Op, faults []c05Fault) *c05Result {
 	c05Seq++
@@ -92,6 +96,7 @@ func c05Run(t *rapid.T, base string, weekends string, ops []c05Op, faults []c05F
 	ctl := vhook.New()
 	ctl.KeepLog = true
 	ctl.TickBudget = 2_000_000
+	ctl.CallBudget = c05CallBudget // bounds retries that are not loops (recursion) as well
 	ctl.IntnFn = func(n int) int { return 3 % n }
 	stickyOp := map[int]string{}
 	ctl.Plan = func(c *vhook.Call) {
@@ -274,9 +279,11 @@ func TestVerifC05Faults(t *testing.T) {
 	rapid.Check(t, func(t *rapid.T) {
 		ops, deletes := c05Scenario(t)
 		weekends := rapid.SampledFrom([]string{"missing", "missing", "3\n", "3\n", "", " \n", "x", "\x00"}).Draw(t, "weekends")
+		c05CallBudget = 50000
 		clean := c05Run(t, base, weekends, ops, nil)
 		c05Judge(t, "fault-free run", ops, clean, !deletes && clean.undecodable == 0)
 		n := len(clean.calls)
+		c05CallBudget = 20*n + 2000
 		vstats.NoteMax("max_calls_per_scenario", int64(n))
 		desc := fmt.Sprintf("weekends=%q ops=%v calls=%d", weekends, ops, n)
 		runs := 0
@@ -309,9 +316,10 @@ func TestVerifC05Faults(t *testing.T) {
 				vstats.Case(desc+" | "+what, res.hit[0] && changed, "single:"+clean.calls[i].Op)
 			}
 		}
-		// persistent failures: from call i on, every call of that operation fails (ENOSPC / EROFS)
+		// persistent failures: from call i on, every call of that operation fails (disk full, read-only file system,
+		// a directory that is gone and cannot be made again, no file descriptors left)
 		for i := 0; i < n; i++ {
-			for _, e := range []syscall.Errno{syscall.ENOSPC, syscall.EROFS} {
+			for _, e := range []syscall.Errno{syscall.ENOSPC, syscall.EROFS, syscall.ENOENT, syscall.EMFILE} {
 				res := c05Run(t, base, weekends, ops, []c05Fault{{idx: i, errno: e, sticky: true}})
 				runs++
 				what := fmt.Sprintf("every %s from call #%d on failing with %v", clean.calls[i].Op, i, e)
